@@ -443,6 +443,18 @@ StaleEdit ==
        /\ s' = [s EXCEPT !.disk = SetAt(s.disk, p, DF("d8", At(s.disk, p).x, 0)),
                          !.cache[p] = [v |-> 0, d |-> "d8"], !.edited = @ \cup {p}, !.budget = 0]
 
+\* content inside a directory that the plan removes disappears between scan and
+\* transition.  The removal treats it as already removed, so results stay exact:
+\* the one external change admitted in C09 runs (then without injected event).
+DeleteInside ==
+  /\ s.pc = "start" /\ Budget > 0 /\ s.budget = Budget /\ s.edited = {}
+  /\ \E j \in 1..Len(s.plan) :
+       /\ s.plan[j].old.k = "dir"
+       /\ \E q \in Nodes(s.plan[j].old) \ {<<>>} :
+            LET p == s.plan[j].path \o q IN
+            /\ At(s.disk, p) # Nil
+            /\ s' = [s EXCEPT !.disk = SetAt(s.disk, p, Nil), !.budget = 0, !.fkind = "deleted"]
+
 Done == s.pc = "done" /\ UNCHANGED s
 
 \* the code's own steps (no injected event, no external edit)
@@ -453,7 +465,7 @@ Steps == \/ Begin \/ Loop \/ OpenRootParent \/ ListRootParent \/ OpenRoot \/ Lis
          \/ RemoveDispatch \/ RmOpen \/ RmList \/ RmIter \/ RmFinish
          \/ CreateDispatch \/ MkDir \/ MkChmod \/ MkOpen \/ MkIter
          \/ SwapDispatch
-Next == Steps \/ Cancel \/ ExternalEdit \/ CreateEdit \/ StaleEdit \/ Done
+Next == Steps \/ Cancel \/ ExternalEdit \/ CreateEdit \/ StaleEdit \/ DeleteInside \/ Done
 Spec == Init /\ [][Next]_s
 
 \* ------------------------------------------------------------- invariants
